@@ -177,11 +177,6 @@ theorem utmi_never_reads (cfg : Config) (s : Utmi) (i : UtmiIn) (hw : s.win.st.i
       cases hs : s.win.st <;> simp_all [Window.readDataPhase, WState.isRead]
     simp [Utmi.step, this]
 
-/-- Receive outputs of the composite over a whole input history. -/
-def Utmi.run (cfg : Config) : Utmi → List UtmiIn → Utmi
-  | s, [] => s
-  | s, i :: is => Utmi.run cfg (s.step cfg i).1 is
-
 theorem utmi_rx_is_rx (cfg : Config) (s : Utmi) (h : List UtmiIn) (hw : s.win.st.isRead = false) :
     (Utmi.run cfg s h).rx = (Rx.run s.rx (h.map fun i => (i.phy, false))).1 := by
   induction h generalizing s with
